@@ -70,9 +70,24 @@ CLAIMS = [
                 'ranks 1-4 with unequal sizes, units <= 2, PWL rows 2-5 (quick) / 2-7 (thorough).',
         'design_ref': 'DESIGN.md section 4 C13',
     },
+    {
+        'property_id': 'C02',
+        'level': 'proof',
+        'technique': 'contract-based deductive verification: real interpolation bodies on symbolic inputs/kernels, region-wise '
+                     'equality with the multilinear / sorted-simplex spec (exact polynomial normal form, then z3/cvc5); path '
+                     'oracles for sort / float->int cast',
+        'text': 'compute_interpolation_weights, batch_outer_operation, evaluate_with_hypercube_interpolation, '
+                'evaluate_with_simplex_interpolation and Lattice.call carry the postcondition "on every closed region the output '
+                'equals the spec interpolation of the cell corners"; proved for ALL kernels and ALL real inputs (regions cover '
+                'R^d incl. faces, vertices, ties, out-of-range). Vertex reproduction, convex weights, bounds, scheme agreement on '
+                'edges, monotone and Edgeworth inheritance are lemmas.',
+        'note': 'Trusted: operator contracts incl. sort/cast oracles (cross-checked each run), Keras stub, z3/cvc5, reals for '
+                'floats. Bounded: ranks 1-3 sizes <= 3 (4 thorough), units <= 2, batch <= 2, outer products up to 9 factors.',
+        'design_ref': 'DESIGN.md section 4 C02',
+    },
 ]
 
 _PENDING = 'check not built yet in this session (planned, see DESIGN.md section 4); not claimed until its check exists'
 NOT_APPLICABLE = [
-    {'property_id': 'C%02d' % i, 'reason': _PENDING} for i in range(2, 21) if i not in (4, 6, 12, 13)
+    {'property_id': 'C%02d' % i, 'reason': _PENDING} for i in range(2, 21) if i not in (2, 4, 6, 12, 13)
 ]
